@@ -37,6 +37,30 @@ CHECKS["C01"] = dict(
    technique="Lean 4 proof (inductive invariant over a system-call trace acceptor + crash relation; scanner soundness/completeness) + trace-replay correspondence with the real qmail-queue under a simulated libc with fault and crash injection",
    design="DESIGN.md §2 C01")
 
+_DAEMON_NOTE = NOTE_COMMON + ("Modelled, not verified: the OS semantics of DESIGN.md 1.4 as implemented by harness/sim.c; spawners are scripted by the harness; bounce injection "
+    "(qmail.c) is replaced by a stand-in that records the bounce and succeeds/fails as scripted (its atomicity is C01); rewrite() is the identity on the harness's recipients (C10); "
+    "the monitor does not model qmail-send's volatile bookkeeping (numtodo, refs, pass positions) itself but the enabling conditions it must establish; liveness (every message is eventually "
+    "tried) is not stated.")
+CHECKS["C03"] = dict(
+   text="Theorems about EVERY event sequence accepted by the Lean monitor of qmail-send + qmail-clean's observable protocol (every filesystem-mutating call, delivery command, byte of every "
+        "spawner report, bounce injection, crash, restart; unbounded messages, recipients, histories): in every reachable state every accepted recipient is still queued, reported delivered, named in a "
+        "pending or queued bounce, or under one of the two documented exemptions (discarded double bounce; non-crash-proof bounce record after a machine crash); a message is removed only when all are "
+        "accounted for; a D mark is written only after a K report or after the bounce paragraph of a D/expired-Z report; only K finishes a recipient at report time; channel files are unlinked only when "
+        "every record is finished; info last; bounce record removed only after a successful injection or for #@[]. Tied to the code by replaying the traces of the real qmail-send and qmail-clean mains "
+        "under an in-memory POSIX simulator (scripted spawners, 1600/24000 seeded histories with signals, failing calls, process/machine crashes and restarts) through the monitor, and by an independent "
+        "recipient-accounting oracle on each concrete run.",
+   note=_DAEMON_NOTE,
+   technique="Lean 4 proof (inductive accounting invariant over a protocol monitor, closed under crash/restart events) + trace-replay correspondence with the real daemon under a simulated libc",
+   design="DESIGN.md §2 C03/C04, Appendix A")
+CHECKS["C04"] = dict(
+   text="Theorems about every event sequence accepted by the same monitor: outstanding attempts per channel never exceed min(configured concurrency, spawner limit); no two outstanding attempts for the "
+        "same recipient record and no delivery number in use twice (invariant by induction over all events); a delivery command is accepted only for a record whose completion mark is not on disk, and is "
+        "refused once the D byte is there - in the same run, after restart, after a crash that kept the byte; restart forgets slots but no file content. Tied to the code as C03; the oracle checks on each "
+        "concrete run that no command follows a written mark (absent a machine crash), no slot is reused while in flight, and the in-flight count stays within the limit.",
+   note=_DAEMON_NOTE + " 'exactly once without crashes' is stated as the conjunction of C04_no_retry/C04_marked_refused with C03's accounting, not as a single trace-level theorem.",
+   technique="Lean 4 proof (slot invariant by induction over monitor events; guard theorems) + trace-replay correspondence with the real daemon under a simulated libc",
+   design="DESIGN.md §2 C03/C04, Appendix A")
+
 exec(open(os.path.join(VERIF, "tools", "manifest_entries.py")).read())
 
 PENDING = {}
